@@ -132,40 +132,40 @@ def parseBytes16 (s : String) : Option Bytes :=
 /-- encoder name + argument tokens (without the trailing buffer) -/
 def parseEnc (name : String) (a : List String) : Option Enc :=
   match name, a with
-  | "reqSetEid", [op, e] => do pure (.reqSetEid (← parseByteIn op [0, 1, 2, 3]) (← parseByte e))
+  | "reqSetEid", [op, e] => do pure (.reqSetEid (← parseByteIn op ArgEnum.setEidOp) (← parseByte e))
   | "reqGetEid", [] => some .reqGetEid
   | "reqGetUuid", [] => some .reqGetUuid
-  | "reqVersion", [q] => do pure (.reqVersion (← parseByteIn q [0xFF, 0, 1, 2, 3]))
+  | "reqVersion", [q] => do pure (.reqVersion (← parseByteIn q ArgEnum.versionQuery))
   | "reqMsgTypes", [] => some .reqMsgTypes
   | "reqVendor", [s] => do pure (.reqVendor (← parseByte s))
   | "reqResolveEid", [e] => do pure (.reqResolveEid (← parseByte e))
-  | "reqAllocate", [op, n, f] => do pure (.reqAllocate (← parseByteIn op [0, 1, 2]) (← parseByte n) (← parseByte f))
+  | "reqAllocate", [op, n, f] => do pure (.reqAllocate (← parseByteIn op ArgEnum.allocOp) (← parseByte n) (← parseByte f))
   | "reqRouting", [es] => do
       let raw ← parseBytes es
       if raw.length % 4 = 0 then pure (.reqRouting raw) else none
   | "reqRoutingNew", [es] => do     -- entries built by `::new`: the entry type is an enum (0-3)
       let raw ← parseBytes es
-      let typesOk := (List.range (raw.length / 4)).all fun i => decide ((byteAt raw (4 * i)).toNat ≤ 3)
+      let typesOk := (List.range (raw.length / 4)).all fun i => ArgEnum.routingEntryType.contains (byteAt raw (4 * i)).toNat
       if raw.length % 4 = 0 && typesOk then pure (.reqRouting raw) else none
   | "reqGetRouting", [h] => do pure (.reqGetRouting (← parseByte h))
   | "reqPrepare", [] => some .reqPrepare
   | "reqDiscovery", [] => some .reqDiscovery
   | "reqNotify", [] => some .reqNotify
   | "reqNetworkId", [] => some .reqNetworkId
-  | "reqQueryHop", [e, t] => do pure (.reqQueryHop (← parseByte e) (← parseByteIn t [0x00, 0x05, 0x06, 0x7E, 0x7F, 0xFF]))
+  | "reqQueryHop", [e, t] => do pure (.reqQueryHop (← parseByte e) (← parseByteIn t ArgEnum.msgType))
   | "reqResolveUuid", [u, h] => do pure (.reqResolveUuid (← parseBytes16 u) (← parseByte h))
   | "reqQueryRate", [] => some .reqQueryRate
   | "reqTxRate", [] => some .reqTxRate
   | "reqUpdateRate", [] => some .reqUpdateRate
   | "reqQueryIfaces", [] => some .reqQueryIfaces
   | "vendorDefined", [v, msg] => do pure (.vendorDefined (← parseVendor v) (← parseBytes msg))
-  | "respSetEid", [cc, rej, al] => do pure (.respSetEid (← parseByteIn cc [0, 1, 2, 3, 4, 5]) (← parseBool rej) (← parseByteIn al [0, 1, 2]))
+  | "respSetEid", [cc, rej, al] => do pure (.respSetEid (← parseByteIn cc ArgEnum.completionCode) (← parseBool rej) (← parseByteIn al ArgEnum.allocStatus))
   | "respGetEid", [cc, et, it, f] => do
-      pure (.respGetEid (← parseByteIn cc [0, 1, 2, 3, 4, 5]) (← parseByteIn et [0, 1]) (← parseByteIn it [0, 1, 2, 3]) (← parseBool f))
-  | "respUuid", [cc, u] => do pure (.respUuid (← parseByteIn cc [0, 1, 2, 3, 4, 5]) (← parseBytes16 u))
-  | "respVersion", [cc] => do pure (.respVersion (← parseByteIn cc [0, 1, 2, 3, 4, 5]))
-  | "respMsgTypes", [cc, ts] => do pure (.respMsgTypes (← parseByteIn cc [0, 1, 2, 3, 4, 5]) (← parseBytes ts))
-  | "respVendor", [cc, s, v] => do pure (.respVendor (← parseByteIn cc [0, 1, 2, 3, 4, 5]) (← parseByte s) (← parseBytes v))
+      pure (.respGetEid (← parseByteIn cc ArgEnum.completionCode) (← parseByteIn et ArgEnum.endpointType) (← parseByteIn it ArgEnum.endpointIdType) (← parseBool f))
+  | "respUuid", [cc, u] => do pure (.respUuid (← parseByteIn cc ArgEnum.completionCode) (← parseBytes16 u))
+  | "respVersion", [cc] => do pure (.respVersion (← parseByteIn cc ArgEnum.completionCode))
+  | "respMsgTypes", [cc, ts] => do pure (.respMsgTypes (← parseByteIn cc ArgEnum.completionCode) (← parseBytes ts))
+  | "respVendor", [cc, s, v] => do pure (.respVendor (← parseByteIn cc ArgEnum.completionCode) (← parseByte s) (← parseBytes v))
   | "genControl", [h, d] => do pure (.genControl (← parseOptBytes h) (← parseBytes d))
   | "genPci", [h, d] => do pure (.genPci (← parseOptBytes h) (← parseBytes d))
   | "genIana", [h, d] => do pure (.genIana (← parseOptBytes h) (← parseBytes d))
